@@ -421,6 +421,19 @@ func asteriskDefineProcess(
 
 	asteriskArrayT := base.MakeAnyArray()
 
+	// the rest parameter of a configured method keeps its declaration: only a
+	// user-defined method learns its parameter type from the call
+	declaredT :=
+		base.GetValueT(
+			m.evaluatedObjectT.GetFrame(),
+			class,
+			m.method,
+			definedArgNames[defineArgIdx][1:],
+			isStatic,
+		)
+
+	isConfigured := declaredT.IsBuiltin()
+
 	mustBindCt := 0
 	for _, name := range definedArgNames[defineArgIdx+1:] {
 		if !base.IsKeySuffix(name) {
@@ -438,14 +451,16 @@ func asteriskDefineProcess(
 	}
 
 	if mustBindCt >= len(positionalArgTs) {
-		base.SetValueT(
-			m.evaluatedObjectT.GetFrame(),
-			class,
-			m.method,
-			definedArgNames[defineArgIdx][1:],
-			asteriskArrayT,
-			isStatic,
-		)
+		if !isConfigured {
+			base.SetValueT(
+				m.evaluatedObjectT.GetFrame(),
+				class,
+				m.method,
+				definedArgNames[defineArgIdx][1:],
+				asteriskArrayT,
+				isStatic,
+			)
+		}
 
 		defineArgIdx++
 
@@ -462,14 +477,16 @@ func asteriskDefineProcess(
 		argIdx++
 	}
 
-	base.SetValueT(
-		m.evaluatedObjectT.GetFrame(),
-		class,
-		m.method,
-		definedArgNames[defineArgIdx][1:],
-		asteriskArrayT,
-		isStatic,
-	)
+	if !isConfigured {
+		base.SetValueT(
+			m.evaluatedObjectT.GetFrame(),
+			class,
+			m.method,
+			definedArgNames[defineArgIdx][1:],
+			asteriskArrayT,
+			isStatic,
+		)
+	}
 
 	argIdx++
 	defineArgIdx++
